@@ -50,11 +50,12 @@ def writtenBefore (lines : List Line) (ft : FT) (j : Nat) : Bool :=
   | none => false
 
 /-- decidable form of `GapEqW` (Proofs/SpacingLayoutW2.lean): what `TokenSpacing` can tell apart of two layouts:
-    whether a gap is empty matters only behind a literal or unknown token and in front of the end-of-file token -/
+    whether a gap is empty matters only between a literal or unknown token and a token that can keep its spacing
+    (`keepsCur`), and in front of the end-of-file token -/
 def gapEqWB : Bool → FT → FT → Bool
   | _, [], [] => true
   | po, t1 :: r1, t2 :: r2 =>
-    (t1.tok.kind == t2.tok.kind) && (!po || gapEmpty t1 == gapEmpty t2) &&
+    (t1.tok.kind == t2.tok.kind) && (!po || !keepsCur t1.tok.kind || gapEmpty t1 == gapEmpty t2) &&
     (!(t1.tok.kind == .tEof) || min t1.fmt.sp 1 == min t2.fmt.sp 1) && gapEqWB (isOtherKind t1.tok.kind) r1 r2
   | _, _, _ => false
 
@@ -63,7 +64,7 @@ def gapEqWB : Bool → FT → FT → Bool
 def gapEqWB0 : Bool → FT → FT → Bool
   | _, [], [] => true
   | po, t1 :: r1, t2 :: r2 =>
-    (t1.tok.kind == t2.tok.kind) && (!po || gapEmpty t1 == gapEmpty t2) && gapEqWB0 (isOtherKind t1.tok.kind) r1 r2
+    (t1.tok.kind == t2.tok.kind) && (!po || !keepsCur t1.tok.kind || gapEmpty t1 == gapEmpty t2) && gapEqWB0 (isOtherKind t1.tok.kind) r1 r2
   | _, _, _ => false
 
 /-- the decidable form of `SameLayout` (Proofs/LayoutFull.lean): same scanned types and texts; identical bytes in front
